@@ -54,11 +54,14 @@ def generate(tier, seed):
             dim = common.max_valid_dim(name)
         for arg, (lo, hi, typ) in common.opt_bounds(name, dim).items():
             vals = [v for v in common.SPECIAL_VALUES.get(arg, []) if (v > lo or (v == lo and typ[0] == "c")) and (v < hi or (v == hi and typ[1] == "c"))]
-            chosen = vals if tier == "thorough" else [vals[i] for i in rng.permutation(len(vals))[:3]]
+            chosen = vals  # every round value in both tiers (a shortcut for one particular value is the typical slip)
             if np.isfinite(hi):
                 chosen = list(chosen) + [hi * 0.9973, lo + (hi - lo) * 0.731]  # large, not round (beyond the interior draws)
             for v in chosen:
-                for fac in (1.0, 1.0 + 2e-6, 1.0 - 2e-6, 1.0 - 4e-9, 1.0 + 4e-9):  # inside / outside tolerant integer tests of either width
+                facs = (1.0, 1.0 + 2e-6, 1.0 - 2e-6, 1.0 - 4e-9, 1.0 + 4e-9)  # inside / outside tolerant integer tests of either width
+                if tier == "quick":
+                    facs = (1.0,) + tuple(facs[1 + int(rng.integers(0, 4))] for _ in range(1))
+                for fac in facs:
                     vv = v * fac
                     if not (lo < vv < hi):
                         continue
